@@ -6,7 +6,7 @@
    unregister calls and of the dispatcher and subscriber goroutines". *)
 From Coq Require Import List Arith NArith Bool String Ascii.
 From Verif Require Import gen.LockProgs model.Bus corr.Run_C20
-  proofs.Bus_proofs proofs.Bus_more_proofs proofs.BusKey_proofs proofs.BusPool_proofs proofs.Bus_final_proofs proofs.BusLocks_proofs.
+  proofs.Bus_proofs proofs.Bus_more_proofs proofs.BusKey_proofs proofs.BusPool_proofs proofs.Bus_final_proofs proofs.BusLocks_proofs proofs.BusReplay_proofs.
 Import ListNotations.
 Open Scope string_scope.
 Open Scope list_scope.
@@ -135,6 +135,35 @@ Theorem C20_nothing_after_unregister : forall i l knd key ops t,
   NotReg i l knd key t -> forallb (noreg l knd key) ops = true ->
   NotReg i l knd key (run ops t) /\ U i l (run ops t) = U i l t.
 Proof. exact nothing_after_unregister. Qed.
+
+(* ---- ... and nothing at all when the dispatch is inside a callback --------------------
+   l is not a listener of subscriber i (its unregistration has returned) and the
+   subscriber has no callback decided ([cur] = None) -- in particular whenever its
+   goroutine is inside a callback: [Call] clears [cur], the next listener is chosen
+   after the callback returned.  Then for every op list that does not register l for
+   the subject again, l is handed nothing through i any more and nothing is decided
+   for it.  The trace form is clause (e) of P_C20 (corr/Run_C20.v): a callback the
+   harness holds was running when the unregistration returned => no callback of that
+   message for l afterwards. *)
+Theorem C20_nothing_behind_a_running_callback : forall i l knd key ops t x,
+  NotReg i l knd key t -> nth_error (subs t) i = Some x -> cur x = None ->
+  forallb (noreg l knd key) ops = true ->
+  delivered i l (run ops t) = delivered i l t /\
+  late_of l (nth_error (subs (run ops t)) i) = [].
+Proof. exact nothing_behind_a_running_callback. Qed.
+
+(* ---- what the replay of the harness accepts ------------------------------------------
+   The judge's verdict "the model follows the log" ([replay ... = None], no code 1) means:
+   there is an op list whose run from the initial state makes exactly the logged
+   callbacks, in the logged order (and, checked by the replay on the way, returns what the
+   logged calls returned, is quiescent exactly where the implementation was, and has the
+   logged digests).  The replay chooses between dropping a snapshot entry that is not a
+   member any more at once and leaving it by looking at the callbacks the log still holds;
+   whatever it chooses, it only applies [step]. *)
+Theorem C20_replay_is_run : forall tb evs,
+  replay tb 0 (mkR init [] []) evs = None ->
+  exists ops, model_callbacks (run ops init) = logged_callbacks evs.
+Proof. exact replay_is_run. Qed.
 
 (* ---- "receives every message published before unregistration began" -----------------
    Full statement of the property: every message whose publication returned after
@@ -292,6 +321,40 @@ Example C20_judge_pool :
                 [EReg 0 1 true; EPub 0 10 77 true; ERecv 1 2 10 77 false]) = [(7, 5, 0)]%N.
 Proof. vm_compute. repeat split; reflexivity. Qed.
 
+(* Clause (e) and the replay on listener changes that fall into the dispatch of one message
+   (room subject, listeners 0 and 1, resp. 1, 2, 3; all callbacks held).
+   late-unreg: listener 0 is in its callback for message 1, listener 1 is unregistered, 0 is
+     released.  Nothing more: accepted.  Listener 1 called for message 1 (seeded change C20-4:
+     no membership check before the callback): the model cannot follow (code 1 at event 6) and
+     P_C20 fails at clause 5 on the implementation's own trace.  The same callback when 0 had
+     been released BEFORE the unregistration: the decided callback cannot be excluded, accepted.
+   late-rereg: 3 is in its callback, 1 is unregistered, 3 released, 2 called and held, 1
+     registered again, 2 released.  Whether 1 is then called depends on where the loop was:
+     both logs are runs of the model (the replay keeps the entry in the first, drops it before
+     [Pick 0 2] in the second); without the second registration the callback is refused. *)
+Example C20_P_late :
+  let tb : tgt_table := [(T KRoom "late" (Some "b1"), "")] in
+  let k := fun _ : nat => 1%N in
+  let verdict := fun evs => (replay tb 0 (mkR init [] []) evs, P_C20_safety_clause k (index (seq_history evs))) in
+  let pre := [EReg 0 0 true; EReg 0 1 true; EPub 0 1 77 true; ERecv 0 1 1 77 true; EUnreg 0 1; ERelease 0]%N in
+  let a := [EReg 0 1 true; EReg 0 2 true; EReg 0 3 true; EPub 0 6 77 true; ERecv 3 1 6 77 true; EUnreg 0 1;
+            ERelease 3; ERecv 2 1 6 77 true; EReg 0 1 true; ERelease 2]%N in
+  verdict pre = (None, 0%N) /\
+  verdict (pre ++ [ERecv 1 1 1 77 false]) = (Some 6%N, 5%N) /\
+  P_C20_safety_clause k (index (seq_history [EReg 0 0 true; EReg 0 1 true; EPub 0 1 77 true; ERecv 0 1 1 77 true;
+                                             ERelease 0; EUnreg 0 1; ERecv 1 1 1 77 false]%N)) = 0%N /\
+  verdict a = (None, 0%N) /\
+  verdict (a ++ [ERecv 1 1 6 77 false]) = (None, 0%N) /\
+  option_map (fun p => skipn 12 (fst p)) (replay_ops tb (mkR init [] []) (a ++ [ERecv 1 1 6 77 false]))
+    = Some [Unregister (T KRoom "late" (Some "b1")) 1; Pick 0 2; Call 0;
+            Register (T KRoom "late" (Some "b1")) 1; RegFinish; Pick 0 1; Call 0; End_ 0]%N /\
+  option_map (fun p => skipn 12 (fst p)) (replay_ops tb (mkR init [] []) a)
+    = Some [Unregister (T KRoom "late" (Some "b1")) 1; Pick 0 1; Pick 0 2; Call 0;
+            Register (T KRoom "late" (Some "b1")) 1; RegFinish; End_ 0]%N /\
+  verdict [EReg 0 1 true; EReg 0 2 true; EReg 0 3 true; EPub 0 6 77 true; ERecv 3 1 6 77 true; EUnreg 0 1;
+           ERelease 3; ERecv 2 1 6 77 true; ERelease 2; ERecv 1 1 6 77 false]%N = (Some 9%N, 5%N).
+Proof. vm_compute. repeat split; reflexivity. Qed.
+
 Print Assumptions C20_bus_fifo_exact.
 Print Assumptions C20_received_is_prefix.
 Print Assumptions C20_drained_equal.
@@ -308,6 +371,8 @@ Print Assumptions C20_nothing_foreign_refuted.
 Print Assumptions C20_subject_collision.
 Print Assumptions C20_subject_collision_compat.
 Print Assumptions C20_nothing_after_unregister.
+Print Assumptions C20_nothing_behind_a_running_callback.
+Print Assumptions C20_replay_is_run.
 Print Assumptions C20_published_before_unregister_refuted.
 Print Assumptions C20_publish_never_blocks.
 Print Assumptions C20_dispatcher_never_blocks.
